@@ -331,6 +331,9 @@ func Run(t *testing.T, cfg Config, root func()) *Sim {
 				}
 				s.salt = uint32(cfg.Sched.Next(1 << 30))
 			}
+			if cfg.Stdio != nil {
+				cfg.Stdio.init()
+			}
 			active = s
 			resetPerRun()
 			finished := make(chan struct{})
